@@ -27,9 +27,9 @@ RULE = ('cases: seeded grid searches over grids of 1-12 combinations (1-3 parame
         'table).')
 ASSUMPTIONS = ['grids carry no repeated values (the table key must identify the combination; duplicates are C14\'s subject)',
                'workers are forked (Linux default), so the score table set before the call is visible to them']
-FLOORS = {'quick': {'grids_with_non_list_collections': 67, 'searches': 300, 'parallel_searches': 150, 'results_checked': 1500, 'mode_0': 15, 'mode_1': 15, 'mode_2': 15, 'mode_3': 15,
+FLOORS = {'quick': {'searches_whose_score_function_runs_a_failing_search': 48, 'searches_after_a_build_that_failed_in_a_collection': 26, 'grids_with_non_list_collections': 67, 'searches': 300, 'parallel_searches': 150, 'results_checked': 1500, 'mode_0': 15, 'mode_1': 15, 'mode_2': 15, 'mode_3': 15,
                     'mode_4': 15, 'mode_5': 15, 'mode_6': 15, 'mode_7': 15, 'tied_optimum': 40, 'optimum_last': 30, 'optimum_first': 30,
-                    'optimum_middle': 20, 'beyond_maxsize_tables': 40, 'seeded_grids': 40, 'big_equal_valued_neighbours': 2, 'big_long_variance': 2, 'big_grids': 2, 'parameter_list_reused': 80, 'style_bigint': 15, 'style_nearmax': 8, 'limit_below_completion': 30,
+                    'optimum_middle': 20, 'beyond_maxsize_tables': 40, 'seeded_grids': 40, 'big_equal_valued_neighbours': 2, 'big_long_variance': 2, 'big_grids': 2, 'parameter_list_reused': 79, 'style_bigint': 15, 'style_nearmax': 8, 'limit_below_completion': 30,
                     'reach:Batching.grid_search': 300},
           'thorough': {'searches': 12000, 'parallel_searches': 6000}}
 EXHAUSTIVE = {}
@@ -137,6 +137,17 @@ def case_search(ctx, case):
     # the values of a parameter may be handed over as any re-iterable collection (tuple, range, dict view, an iterable without len())
     from vlib import reps as _reps
     given = {k_: _reps.as_collection(rng, v_, 0.4) for k_, v_ in grid.items()}
+    if rng.random() < 0.25:
+        # earlier in this process a parameter list with a collection of the caller's own type was built, and that collection failed
+        # with a TypeError while it was iterated (the caller caught / ignored it); now a healthy collection of the same type is used
+        from vlib import faults
+        faults.attempt(batching.ParameterList({'warm_up': _reps.MoodyBag([1, 2, 3], TypeError, after=rng.randint(0, 3))}).build)
+        k_list = [k_ for k_, v_ in grid.items() if isinstance(v_, list)]
+        if k_list:
+            k_ = rng.choice(k_list)
+            given[k_] = _reps.MoodyBag(grid[k_], TypeError)
+            given[k_].armed = False
+        ctx.count('searches_after_a_build_that_failed_in_a_collection')
     if any(type(given[k_]) is not type(grid[k_]) for k_ in grid):
         ctx.count('grids_with_non_list_collections')
     if rng.random() < 0.5:
@@ -152,7 +163,11 @@ def case_search(ctx, case):
         kw = dict(processes=procs, repetitions=reps, mode=batching.ScoreMode(mode))
         if lim is not None:
             kw['max_timesteps'] = lim
-        best, results = batching.grid_search(bm.SModel, params, bm.table_score, **kw)
+        score_fn = bm.table_score
+        if case['i'] % 5 == 3:
+            score_fn = bm.table_score_nested          # the score function runs (and survives) a failing search of its own
+            ctx.count('searches_whose_score_function_runs_a_failing_search')
+        best, results = batching.grid_search(bm.SModel, params, score_fn, **kw)
         ctx.count('searches')
         ctx.count(f'mode_{mode}')
         if procs > 1:
